@@ -71,3 +71,17 @@ Example agreement_nonvacuous :
 Proof.
   split; [exact S3_reachable|]. unfold honest3, P3. simpl. intuition.
 Qed.
+
+(* ---- non-vacuity of the totality theorem: a complete fault-free run of three parties, two concurrent senders,
+   one point-to-point message; the schedule delivers the LAST in-flight message first (acknowledgements overtake) ---- *)
+Require Import TSS.RBC.Totality.
+Definition bc3 : list (nat * round * nat) := [(0, 0, 7); (1, 0, 8)].
+Definition pp3 : list (nat * nat * nat) := [(2, 0, 5)].
+Definition srun3 := srun nat Nat.eq_dec nat Nat.eq_dec nat (fun p => p) P3 bc3 pp3.
+Definition sched3 : list nat := [4; 3; 2; 1; 0; 5; 4; 3; 2; 1; 0; 0; 0; 0; 0; 0; 0; 0; 0; 0].
+
+Example totality_nonvacuous :
+  snd (srun3 sched3) = [] /\
+  length (dlv nat nat nat (fst (srun3 sched3))) = 4 /\
+  p2p nat nat nat (fst (srun3 sched3)) = [(0, 2, 5)].
+Proof. vm_compute. repeat split; reflexivity. Qed.
